@@ -63,6 +63,11 @@ pub trait Resolve: {
         self.resolve_flags(r, ParseFlags::ANY, 16)
     }
     fn get<T: Object+DataSize>(&self, r: Ref<T>) -> Result<RcRef<T>>;
+    /// Run `f`, which decodes the value `r` resolved to. While it runs, `r` counts as being loaded, like a reference
+    /// passed to `get`: a value that leads back to `r` ends in an error instead of unbounded recursion.
+    fn with_loading<T>(&self, _r: PlainRef, f: impl FnOnce() -> Result<T>) -> Result<T> {
+        f()
+    }
     fn options(&self) -> &ParseOptions;
     fn stream_data(&self, id: PlainRef, range: Range<usize>) -> Result<Arc<[u8]>>;
     fn get_data_or_decode(&self, id: PlainRef, range: Range<usize>, filters: &[StreamFilter]) -> Result<Arc<[u8]>>;
@@ -615,7 +620,7 @@ impl<T: Object> Object for Vec<T> {
                 Vec::new()
             }
             Primitive::Reference(id) => match r.resolve(id) {
-                Ok(p) => Self::from_primitive(p, r)?,
+                Ok(p) => r.with_loading(id, || Self::from_primitive(p, r))?,
                 // a reference to a missing object is the null object
                 Err(e) if e.is_missing_object() => Vec::new(),
                 Err(e) => return Err(e)
@@ -716,7 +721,7 @@ impl<V: Object> Object for HashMap<Name, V> {
                 Ok(new)
             }
             Primitive::Reference (id) => match resolve.resolve(id) {
-                Ok(p) => HashMap::from_primitive(p, resolve),
+                Ok(p) => resolve.with_loading(id, || HashMap::from_primitive(p, resolve)),
                 // a reference to a missing object is the null object
                 Err(e) if e.is_missing_object() => Ok(HashMap::new()),
                 Err(e) => Err(e)
